@@ -763,13 +763,18 @@ func calAndSetEventNode(e *Expr) {
 			isFastOp = n.getNodeType() == fastOperator
 		)
 		return func(ctx *Ctx, params []Value) (res Value, err error) {
+			// params may be a buffer the engine reuses for the next operator,
+			// so the event carries its own copy
+			eventParams := make([]Value, len(params))
+			copy(eventParams, params)
+
 			res, err = op(ctx, params)
 			e.EventChan <- Event{
 				EventType: OpExecEvent,
 				Data: OpEventData{
 					IsFastOp: isFastOp,
 					OpName:   name,
-					Params:   params,
+					Params:   eventParams,
 					Res:      res,
 					Err:      err,
 				},
